@@ -52,7 +52,22 @@ def _case(draw):
         # known finding KF-C02-1 (fontTools TTGlyphPointPen flag bleed): excluded by construction, see kf_class()
         for g in spec["glyphs"]:
             g["contours"] = [_start_on_curve(c) for c in g.get("contours", [])]
-    return {"spec": spec, "module": draw(st.sampled_from(["ufoLib2", "defcon"])), "opts": opts}
+    case = {"spec": spec, "module": draw(st.sampled_from(["ufoLib2", "defcon"])), "opts": opts}
+    if all(g["name"] != ".notdef" for g in spec["glyphs"]) and opts.get("reverseDirection", True) and draw(st.integers(0, 2)) == 0:
+        # the caller's own .notdef (compileTTF(notdefGlyph=...)): inserted after pre-processing, so lines and quadratics only;
+        # only with the default reverseDirection, where "reversed to the TrueType convention" is unambiguous
+        pt = st.tuples(st.integers(-300, 900), st.integers(-300, 900))
+        contours = []
+        for _ in range(draw(st.integers(1, 2))):
+            pts = draw(st.lists(pt, min_size=3, max_size=5, unique=True))
+            c = [(x, y, "line") for x, y in pts]
+            if draw(st.booleans()):
+                ox, oy = draw(pt)
+                c[1:1] = [(ox, oy, None)]
+                c[2] = (c[2][0], c[2][1], "qcurve")
+            contours.append(c)
+        case["notdef_glyph"] = {"name": ".notdef", "width": draw(st.integers(0, 1200)), "contours": contours}
+    return case
 
 
 def _start_on_curve(c):
@@ -267,6 +282,12 @@ def run_case(case, ctx):
         raise Discard("resolved coordinate beyond +-16000")
     gi = R.glyph_index(spec)
     f = S.build(spec, S.ufo_module(case["module"]))
+    nd = case.get("notdef_glyph")
+    if nd is not None:
+        nd_font = S.ufo_module(case["module"]).Font()  # kept alive: defcon glyphs reach their font through weak references
+        opts["notdefGlyph"] = S._build_glyph(nd_font, nd)
+        gi[".notdef"] = nd
+        ctx.label("caller-supplied-notdef")
     has_cubic = any(pt[2] == "curve" for g in spec["glyphs"] for c in g.get("contours", []) for pt in c)
     convert = opts.get("convertCubics", True)
     allq = opts.get("allQuadratic", True)
@@ -292,7 +313,7 @@ def run_case(case, ctx):
     reverse = opts.get("reverseDirection", True)
     flatten = opts.get("flattenComponents", False)
     memo = {}
-    for g in spec["glyphs"]:
+    for g in spec["glyphs"] + ([nd] if nd is not None else []):
         name = g["name"]
         ttg = glyf[name]
         if t["hmtx"][name][0] != R.ot_round(g.get("width", 0)):
